@@ -161,8 +161,45 @@ static void alias_case(int m, int l, int n, int layout, int route, int param) {
   vx_case_end();
 }
 
+/* compiled DJB linear maps: djb_compile(A) applied to a zeroed target must give A*V for every shape of A (multi-word rows
+   exercise the reverse-lexicographic row comparison) and every width of V (all residues of the word-wise row addition) */
+static void djb_case(int m, int l, int n, pat pa, pat pb) {
+  char b1[40], b2[40];
+  if (!vx_case_begin("djb_compile+apply|%dx%dx%d|A=%s|V=%s", m, l, n, pat_str(pa, b1), pat_str(pb, b2))) return;
+  pm *A = pm_pat(m, l, pa), *V = pm_pat(l, n, pb), *E = pm_mul(A, V);
+  mzd_t *Az = mzd_from_pm(A), *Vz = mzd_from_pm(V), *W = mzd_init(m, n);
+  djb_t *z = djb_compile(Az);
+  if (!z) vx_fail("djb_compile+apply", "product", "%dx%dx%d: djb_compile returned NULL", m, l, n);
+  else {
+    if (z->nrows != m || z->ncols != l) vx_fail("djb_compile+apply", "dimensions", "%dx%d map reports %dx%d", m, l, z->nrows, z->ncols);
+    for (int i = 0; i < z->length; i++) { int src_ok = z->srctyp[i] == source_source ? (z->source[i] >= 0 && z->source[i] < l) : (z->source[i] >= 0 && z->source[i] < m); if (z->target[i] < 0 || z->target[i] >= m || !src_ok) { vx_fail("djb_compile+apply", "program", "%dx%d: instruction %d addresses row %d <- %d out of range", m, l, i, z->target[i], z->source[i]); break; } }
+    djb_apply_mzd(z, W, Vz);
+    if (!mzd_eq_pm(W, E)) vx_fail("djb_compile+apply", "product", "%dx%dx%d A=%s V=%s: applying the compiled map to a zeroed target differs from A*V", m, l, n, b1, b2);
+    if (mzd_padding_dirty(W) >= 0) vx_fail("djb_compile+apply", "padding", "%dx%dx%d: target has non-zero bits beyond its last column", m, l, n);
+    if (!mzd_eq_pm(Vz, V) || mzd_padding_dirty(Vz) >= 0) vx_fail("djb_compile+apply", "operand-unchanged", "%dx%dx%d: V modified", m, l, n);
+    djb_free(z);
+  }
+  vx_input(pm_hash(A) * 31 + pm_hash(V) + (uint64_t)n, !pm_is_zero(E));
+  mzd_free(W); mzd_free(Vz); mzd_free(Az); pm_free(A); pm_free(V); pm_free(E);
+  vx_case_end();
+}
+static void mode_djb(void) {
+  static const int M[] = {1, 2, 3, 5, 8, 17, 33, 64, 65, 100, 130}, L[] = {1, 2, 7, 31, 63, 64, 65, 100, 127, 128, 129, 200}, N[] = {1, 63, 64, 65, 128, 129, 192, 257, 320, 384, 448, 512, 513, 577};
+  static const pat PA[] = {{P_PR, 0, 1}, {P_PR, 1, 3}, {P_PR, 2, 4}, {P_O, 0, 0}, {P_Z, 0, 0}, {P_ID, 0, 0}, {P_CHK, 0, 0}, {P_ANTI, 0, 0}, {P_UT, 0, 5}, {P_LT, 1, 6}};
+  for (int a = 0; a < 11; a++) for (int b = 0; b < 12; b++) for (int c = 0; c < 14; c++) {
+    int m = M[a], l = L[b], n = N[c];
+    if (!vx_tier && ((a + b + c) % 2)) continue;
+    for (int p = 0; p < 10; p++) djb_case(m, l, n, PA[p], (pat){P_PR, 0, 2});
+    djb_case(m, l, n, PA[0], (pat){P_O, 0, 0});
+  }
+  /* every single-entry A (complete basis) and every duplicate-row pattern for small shapes */
+  for (int m = 1; m <= 9; m++) for (int l = 1; l <= 9; l++) { for (int s = 0; s < l; s++) djb_case(m, l, 65, (pat){P_CYC, s, 0}, (pat){P_PR, 0, 2}); for (int s = 0; s < 4; s++) djb_case(m, l, 3, (pat){P_ROWSTRIPE, s, 0}, (pat){P_PR, 0, 2}); }
+  for (int m = 60; m <= 70; m += 5) for (int l = 126; l <= 130; l++) for (int s = 0; s < l; s += 7) djb_case(m, l, 129, (pat){P_CYC, s, 0}, (pat){P_PR, 0, 2});
+}
+
 void prop_enumerate(void) {
   const char *mode = vx_arg("mode", "grid");
+  if (!strcmp(mode, "djb")) { mode_djb(); return; }
   if (!strcmp(mode, "alias")) {
     static const int DQ[] = {1, 33, 64, 65, 128, 130, 200}, DT[] = {1, 17, 33, 63, 64, 65, 100, 127, 128, 129, 130, 200, 320};
     const int *D = vx_tier ? DT : DQ; int nd = vx_tier ? 13 : 7;
